@@ -1,5 +1,7 @@
 import E3fpVerif.Codec
 import E3fpVerif.Model.Config
+import E3fpVerif.Model.ConfigState
+import E3fpVerif.Gen.Defaults
 namespace E3fpVerif
 open Lean
 
@@ -23,6 +25,24 @@ def configOp (op : String) (j : Json) : Except String Json := do
   | "cfg.roundtrip" =>
     let vs ← jList jCVal (← jField j "vals")
     return okJ (Json.arr ((vs.map (fun v => cvalJ (parseVal (showVal v)))).toArray))
+  | "cfg.hist" =>
+    -- a history on the parameter state; the packaged defaults are the table regenerated from defaults.cfg
+    let packaged : CTable := Gen.cfgTable.map (fun t => ((t.1, t.2.1), t.2.2))
+    let jEntry := fun (e : Json) => do
+      match ← jArr e with
+      | [sec, opt, v] => return (((← jStr sec), (← jStr opt)), (← jCVal v))
+      | _ => .error "entry expected"
+    let ops ← (← jArr (← jField j "ops")).mapM (fun o => do
+      match ← jStr (← jField o "o") with
+      | "derive" => return CfgOp.derive (← jStr (← jField o "sec")) (← jList (jPair jStr jCVal) (← jField o "kv"))
+      | "read" => return CfgOp.read (← jList jEntry (← jField o "user")) (← jBool (← jField o "fill"))
+      | "get_default" => return CfgOp.getDefault ((← jStr (← jField o "sec")), (← jStr (← jField o "opt")))
+      | s => .error s!"bad cfg op {s}")
+    let (_, out) := cfgRun ⟨packaged, packaged⟩ ops
+    return okJ (Json.arr (out.map (fun a => match a with
+      | .table t => Json.arr (t.map (fun e => Json.arr #[Json.str e.1.1, Json.str e.1.2, cvalJ e.2])).toArray
+      | .val v => (match v with | some x => cvalJ x | none => Json.null)
+      | .unit => Json.null)).toArray)
   | _ => .error s!"unknown op {op}"
 
 end E3fpVerif
